@@ -6,3 +6,8 @@ import SpecsModel.Props.C07
 #print axioms SpecsModel.C07.level_b_splitOK
 #print axioms SpecsModel.C07.level_b_leaves
 #print axioms SpecsModel.C07.level_b_par_perm_seq
+#print axioms SpecsModel.C07.level_c_average_ones
+#print axioms SpecsModel.C07.level_c_split
+#print axioms SpecsModel.C07.level_c_splitOK
+#print axioms SpecsModel.C07.level_c_leaves
+#print axioms SpecsModel.C07.level_c_par_perm_seq
